@@ -1466,11 +1466,11 @@ MC_INIT
         // every start at or before now) and signed 32-bit; several timers, so queue ORDER is exercised there too
         mc::BfsOpts b;
         b.depth_quick = 4;
-        b.depth_thorough = 5;
+        b.depth_thorough = 4; // the deep runs are timer_manager_3/4; these repeat the alphabet in another instantiation / at another clock
         b.max_states = 40000000;
         mc::BfsOpts u = b;
         u.depth_quick = 5;
-        u.depth_thorough = 6;
+        u.depth_thorough = 5;
         mc::add_bfs("timer_manager_3_uint32", [] { return std::unique_ptr<mc::Model>(new TimerModelT<igris::timer_spec<uint32_t>>(3, -1, 0, 1000)); }, u);
         mc::add_bfs("timer_manager_3_uint64", [] { return std::unique_ptr<mc::Model>(new TimerModelT<igris::timer_spec<uint64_t>>(3, -1, 0, 1000)); }, u);
         mc::add_bfs("timer_manager_3_int32", [] { return std::unique_ptr<mc::Model>(new TimerModelT<igris::timer_spec<int32_t>>(3)); }, b);
@@ -1480,7 +1480,7 @@ MC_INIT
         // operation of the alphabet sees operands on both sides of the boundary
         mc::BfsOpts b;
         b.depth_quick = 4;
-        b.depth_thorough = 5;
+        b.depth_thorough = 4; // the deep runs are timer_manager_3/4; these repeat the alphabet in another instantiation / at another clock
         b.max_states = 40000000;
         mc::add_bfs("timer_manager_3_clock_2p31", [] { return std::unique_ptr<mc::Model>(new TimerModel(3, -1, 0, (1LL << 31) - 3)); }, b);
         mc::add_bfs("timer_manager_3_clock_2p32", [] { return std::unique_ptr<mc::Model>(new TimerModel(3, -1, 0, (1LL << 32) - 3)); }, b);
